@@ -340,6 +340,28 @@ func cmdCheck(argv []string) int {
 		}
 		all = append(all, EvObl{name, "flow", shortName(fc.Func), "", "frame", result, time.Since(t0).Milliseconds()})
 	}
+	// read-set obligations on cache keys (frame back end)
+	var keyReads []KeyReads
+	_ = loadJSON(filepath.Join(vd, "keyreads.json"), &keyReads)
+	for _, kr := range keyReads {
+		if kr.Property != id {
+			continue
+		}
+		t0 := time.Now()
+		name := "reads#" + kr.Name
+		ok, reason := runKeyReads(P, kr)
+		result := "discharged"
+		nObl++
+		if ok {
+			nDis++
+		} else {
+			result = "fails"
+			p := writeReplay(name, map[string]interface{}{"property": id, "obligation": name, "kind": "reads", "function": kr.Build, "what": kr.What, "reason": reason,
+				"note": "a read-set obligation over the SSA of the real functions; there is no input-level replay"})
+			viols = append(viols, violation{name, kr.What + ": " + reason, p, false})
+		}
+		all = append(all, EvObl{name, "reads", shortName(kr.Build), "", "frame", result, time.Since(t0).Milliseconds()})
+	}
 	wall := time.Since(start).Seconds()
 	if updateLedger {
 		var names []string
